@@ -82,7 +82,10 @@ def hl_step(draw, n, names, partitioned, positional_only=False, depth=None):
     if op == "sort_axis":
         # as for reducers: the outermost axis only where it is also the innermost (sorting across lists is other properties' known findings)
         axes = [0, -1] if depth == 1 else [depth - 1, -1]
-        return {"op": op, "fn": draw(st.sampled_from(["sort", "argsort"])), "axis": draw(st.sampled_from(axes)), "ascending": draw(st.booleans())}
+        fn = draw(st.sampled_from(["sort", "argsort"]))
+        if depth == 2 and fn == "sort":
+            axes = axes + [0, -2, -2]     # sorting values (not positions) one level above the leaves has no recorded finding in C06
+        return {"op": op, "fn": fn, "axis": draw(st.sampled_from(axes)), "ascending": draw(st.booleans())}
     if op == "at":
         return {"op": op, "i": draw(st.integers(-n - 1, n))}
     if op == "range":
